@@ -166,7 +166,8 @@ static Case gen_c04() {
     o.maxN = g_maxN;
     c.g = gen_graph_raw(o, c.wtype == "int" ? WDom::ExactInt : WDom::Exact);
     int ws = g_world->size();
-    c.ranks = coin(15) ? 1 : pick(1, ws);
+    // communicator size: 1 sometimes, otherwise biased to the large sizes (uneven slices, more ranks than work items)
+    c.ranks = coin(10) ? 1 : (coin(45) ? pick(std::max(1, ws - 2), ws) : pick(1, ws));
     int L = pick(1, 6);
     for (int i = 0; i < L; i++) c.layout.push_back((unsigned) pick(0, 1 << 20));
     return c;
